@@ -240,7 +240,7 @@ def run(module, cfg, workers=None, env=None, timeout=900, simulate=None, depth=N
             r.violated.append(m.group(1))
         for m in re.finditer(r'Error: Temporal properties were violated', out):
             r.violated.append('TemporalProperty')
-        for m in re.finditer(r'Error: The postcondition (\S+)? ?', out):
+        for m in re.finditer(r'Error: (Postcondition \S+|The postcondition)', out):
             r.violated.append('POSTCONDITION')
         if 'Assumption' in out and 'is false' in out:
             m = re.search(r'Assumption (.*) is false', out)
@@ -256,6 +256,15 @@ def run(module, cfg, workers=None, env=None, timeout=900, simulate=None, depth=N
             for m in re.finditer(r'<(\w+) line \d+, col \d+ to line \d+, col \d+ of module (\w+)>: (\d+):(\d+)', out):
                 r.coverage[m.group(1)] = (int(m.group(3)), int(m.group(4)))
         bad = None
+        known = re.compile(r'Error: (Invariant \S+ is violated|Action property \S+ is violated|Temporal properties were violated|'
+                           r'Deadlock reached|The behavior up to this point is|The following behavior constitutes a counter-example|'
+                           r'Postcondition .* is false|The postcondition)')
+        for line in out.splitlines():
+            if line.startswith('Error:') and not known.match(line):
+                bad = line
+                break
+        if bad:
+            raise TlcError('TLC failure (%s) on %s:\n%s' % (bad, module, _errtext(out)))
         if 'Finished in' not in out and 'Finished computing' not in out and simulate is None:
             bad = 'TLC did not finish'
         for pat in (r'\*\*\* Parse Error', r'Semantic errors', r'Error: TLC threw an unexpected exception',
